@@ -35,7 +35,11 @@ for d in sorted(os.listdir(os.path.join(V, "seeded"))):
                     infra = True
     res[d] = {"property": pid, "rc": r.returncode, "violations": len(vio), "concrete_input": concrete, "kinds": kinds,
               "driver_build_failed": infra, "wall_s": round(time.time() - t0)}
+    # merge into the committed record after every seed (a run may be interrupted)
+    rp = os.path.join(V, "seeded", "REGRESSION.json")
+    allres = json.load(open(rp)) if os.path.exists(rp) else {}
+    allres[d] = dict(res[d], when=time.strftime("%Y-%m-%dT%H:%MZ", time.gmtime()))
+    json.dump(allres, open(rp, "w"), indent=1, sort_keys=True)
     print("%-40s %s rc=%d concrete=%s kinds=%s%s %ds" % (d, "CAUGHT" if ok else "MISSED", r.returncode, concrete, kinds,
                                                        " DRIVER-BUILD-FAILED(check the harness!)" if infra else "", time.time() - t0), flush=True)
-json.dump(res, open(os.path.join(V, "seeded", "REGRESSION.json"), "w"), indent=1, sort_keys=True)
 print("caught %d / %d" % (sum(1 for v in res.values() if v["rc"] == 1 and v["violations"]), len(res)))
